@@ -6,6 +6,7 @@ cleanup=False. Plus every user-function call as raise / kill point, and (thoroug
 from __future__ import annotations
 
 import contextlib
+from concurrent.futures import Executor, Future
 import io
 import os
 import re
@@ -24,7 +25,7 @@ ID = "C05"
 LEVEL = "fault_enumeration"
 TECHNIQUE = "exhaustive crash-point enumeration: fork, kill at file-system event k (torn writes), real resume with cleanup=False; depth-2 crash sequences; every user-function call as raise/kill point"
 RULE = ("pipelines of C03's family (the all-None-elements pipeline: fresh start, file_array and dict only) x storage {file_array, dict+persist, shared_memory_dict+persist, mix} x start state {no folder, folder of a previous "
-        "complete run (cleanup=True interrupted)} x {sequential, parallel code path through the deferred executor with its default schedule} x EVERY file-system event of the run (mkdir, open-for-write, every write call with torn fractions, close, "
+        "complete run (cleanup=True interrupted)} x {sequential, parallel code path through the deferred executor with its default schedule; user-function faults also with an executor that runs the tasks of a generation newest first, so that the stored elements are not a prefix} x EVERY file-system event of the run (mkdir, open-for-write, every write call with torn fractions, close, "
         "rename, unlink, rmdir) as the death point; quick coalesces the ~80 tiny json writes of run_info.json to {first, middle, last}; every (function, call "
         "index) as raise and as kill point (also with every name in a scope, and with one-axis internal shapes spelled as ints on the PipeFunc / in a fresh map(internal_shapes=) dict); thorough: all events, fractions {0,1/4,1/2,3/4}, and a second crash at every event of the resumed run. "
         "non-trivial = distinct (pipeline, storage, start, event kind, file role) class")
@@ -45,6 +46,44 @@ def storage_opts(spec, tier):
 # ------------------------------------------------------------------------------------------------
 # the work done inside a child
 # ------------------------------------------------------------------------------------------------
+class _LateFuture(Future):
+    def __init__(self, ex):
+        super().__init__()
+        self._ex = ex
+
+    def result(self, timeout=None):
+        self._ex.drive()
+        return super().result(0)
+
+    def exception(self, timeout=None):
+        self._ex.drive()
+        return super().exception(0)
+
+
+class ReversedExecutor(Executor):
+    """runs ALL pending tasks, newest first, as soon as one result is asked for: when task k of a generation fails, the tasks
+    submitted after it have already stored their elements - the stored elements are then NOT a prefix of the index space"""
+
+    def __init__(self):
+        self.pending = []
+
+    def submit(self, fn, /, *args, **kwargs):
+        f = _LateFuture(self)
+        self.pending.append((f, fn, args, kwargs))
+        return f
+
+    def drive(self):
+        batch, self.pending = self.pending[::-1], []
+        for f, fn, a, k in batch:
+            try:
+                f.set_result(fn(*a, **k))
+            except BaseException as e:  # noqa: BLE001
+                f.set_exception(e)
+
+    def shutdown(self, wait=True, *, cancel_futures=False):
+        pass
+
+
 def do_map(cfg, folder, cleanup, fault=None):
     """runs in the forked child; returns JSON-able observation"""
     c03._install_one_manager()
@@ -86,6 +125,8 @@ def do_map(cfg, folder, cleanup, fault=None):
         # submission order when their results are awaited (worker-side dumps, parent-side post-processing)
         from .. import explore, sched
         par = {"parallel": True, "executor": sched.DeferredExecutor(sched.Sched(explore.Chooser(), eager_points=False))}
+    elif cfg.get("exec") == "reversed":
+        par = {"parallel": True, "executor": ReversedExecutor()}
     else:
         par = {"parallel": False}
     with contextlib.redirect_stdout(io.StringIO()), warnings.catch_warnings():
@@ -316,6 +357,8 @@ def configs(tier):
         # the parallel code path (deferred executor, deterministic default schedule)
         for st in (("file_array", "dict") if tier == "quick" else storage_opts(spec, tier)):
             out.append({"pipe": pipe, "storage": st, "start": "fresh", "exec": "deferred"})
+        # the tasks of a generation run newest first: a failing element leaves HOLES (later elements stored, earlier ones not)
+        out.append({"pipe": pipe, "storage": "file_array", "start": "fresh", "exec": "reversed", "faults_only": True})
     return out
 
 
